@@ -1487,6 +1487,12 @@ impl<'a> GeneratorState<'a> {
                 let param = self.generate_expr(e, code.pos, false, false);
                 self.protected = false;
                 self.generate_load_store_statement(&param?, code.pos, true)?;
+                // The value loaded stays in A for the statements that follow: the deferred side
+                // effects of its expression are applied without disturbing it
+                self.acc_in_use = true;
+                let flushed = self.purge_deferred_plusplus_and_savey();
+                self.acc_in_use = false;
+                flushed?;
             }
             Statement::CSleep(s) => {
                 self.generate_csleep_statement(*s, code.pos)?;
